@@ -270,16 +270,18 @@ func c20Compare(fams []*dto.MetricFamily, model map[c20Key]*c20Agg) error {
 }
 
 var (
-	c20Methods = []string{"GET", "POST", "PUT", "DELETE"}
-	c20URLs    = []string{"http://a.test/", "http://a.test/x?y=1", "https://b.test:8443/é", "http://c.test/%20", "http://a.test/i/2", "http://a.test/i/22", "http://a.test/i/220", "http://a.test/i/2200"}
+	c20Methods = []string{"GET", "POST", "PUT", "DELETE", "G\ufffdT", "GT", "get"}
+	c20URLs    = []string{"http://a.test/", "http://a.test/x?y=1", "https://b.test:8443/é", "http://c.test/%20", "http://a.test/i/2", "http://a.test/i/22", "http://a.test/i/220", "http://a.test/i/2200",
+		// the replacement character is a character like any other (text that was sanitised upstream keeps it)
+		"http://a.test/\ufffd", "http://a.test/x?y=1\ufffd", "http://a.test/\ufffd\ufffd"}
 	c20LongErr = "Get \"http://a.test/search?q=" + strings.Repeat("0123456789", 30) + "\": dial tcp 10.0.0.1:80: connect: connection refused"
-	c20Errors  = []string{c20LongErr + " (attempt 1)", c20LongErr + " (attempt 2)", strings.Repeat("e", 255), strings.Repeat("e", 256), strings.Repeat("e", 257), strings.Repeat("\u00e9", 200), "500 Internal Server Error", "404 Not Found", "dial tcp: connection refused", "context deadline exceeded", "EOF", "bad: \"quoted\"\nline", "é漢"}
+	c20Errors  = []string{c20LongErr + " (attempt 1)", c20LongErr + " (attempt 2)", strings.Repeat("e", 255), strings.Repeat("e", 256), strings.Repeat("e", 257), strings.Repeat("\u00e9", 200), "500 Internal Server Error", "404 Not Found", "dial tcp: connection refused", "context deadline exceeded", "EOF", "bad: \"quoted\"\nline", "é漢", "read: invalid byte \ufffd in reply", "read: invalid byte  in reply", "\ufffd"}
 )
 
 func TestC20Prom(t *testing.T) {
 	vh.Regress(t, "C20")
 	vh.Check(t, 200, 8000, func(t *rapid.T) {
-		nm := rapid.IntRange(1, 4).Draw(t, "nmethods")
+		nm := rapid.IntRange(1, len(c20Methods)).Draw(t, "nmethods")
 		nu := rapid.IntRange(1, 4).Draw(t, "nurls")
 		urls := rapid.SliceOfNDistinct(rapid.SampledFrom(c20URLs), nu, nu, func(u string) string { return u }).Draw(t, "urls")
 		codePool := []uint16{0, 200, 201, 204, 301, 400, 404, 429, 500, 503}
@@ -320,7 +322,8 @@ func TestC20Prom(t *testing.T) {
 			case 1:
 				r.Latency = int64(math.Round(rapid.SampledFrom(bounds).Draw(t, "lb")*1e9)) + int64(rapid.IntRange(-1, 1).Draw(t, "ld"))
 			case 2:
-				r.Latency = rapid.SampledFrom([]int64{0, 1, 1e6, 60e9, 300e9}).Draw(t, "ll")
+				// a latency is a signed duration and every result codec carries negative ones
+				r.Latency = rapid.SampledFrom([]int64{0, 1, 1e6, 60e9, 300e9, -1, -1e6, -5e9}).Draw(t, "ll")
 			default:
 				r.Latency = rapid.Int64Range(0, 20e9).Draw(t, "l")
 			}
